@@ -324,6 +324,8 @@ func execHard(f []string) string {
 		return realAdjustedTime(f[2:])
 	case "reuse":
 		return execReuse(f)
+	case "ptree":
+		return realProcessTree(parseParams(f[2:11]), f[12:])
 	case "hfork":
 		return execFork(f)
 	}
@@ -489,6 +491,71 @@ func execReuse(f []string) string {
 		}
 	}
 	return strings.Join(seq, ",")
+}
+
+// realProcessTree: like realProcessHeaders, but every header ("i:t:bits") names its parent: the i-th
+// known header (0 = genesis, k = the k-th accepted one), so side branches grow next to the main branch
+// inside one real BlockChain.
+func realProcessTree(q *chaincfg.Params, hs []string) string {
+	p := phdrParams(q)
+	base := os.TempDir()
+	if st, err := os.Stat("/dev/shm"); err == nil && st.IsDir() {
+		base = "/dev/shm"
+	}
+	dir, err := os.MkdirTemp(base, "c09db")
+	if err != nil {
+		return "err:tmp"
+	}
+	defer os.RemoveAll(dir)
+	db, err := database.Create("ffldb", filepath.Join(dir, "db"), p.Net)
+	if err != nil {
+		return "err:db"
+	}
+	defer db.Close()
+	chain, err := blockchain.New(&blockchain.Config{DB: db, ChainParams: p, TimeSource: blockchain.NewMedianTime()})
+	if err != nil {
+		return "err:new"
+	}
+	type known struct {
+		hash  chainhash.Hash
+		times []int64
+		bits  []uint32
+	}
+	ks := []known{{*p.GenesisHash, []int64{p.GenesisBlock.Header.Timestamp.Unix()}, []uint32{p.GenesisBlock.Header.Bits}}}
+	var out []string
+	for k, tok := range hs {
+		x := strings.Split(tok, ":")
+		if int(i64(x[0])) >= len(ks) { // unknown parent (an earlier header was not accepted)
+			out = append(out, "panic")
+			continue
+		}
+		par := ks[int(i64(x[0]))]
+		h := wire.BlockHeader{Version: 0x20000000, PrevBlock: par.hash, Bits: u32hex(x[2]), Timestamp: time.Unix(i64(x[1]), 0)}
+		h.MerkleRoot[0], h.MerkleRoot[1] = byte(k), byte(k>>8)
+		target := blockchain.CompactToBig(h.Bits)
+		inRange := target.Sign() > 0 && target.Cmp(p.PowLimit) <= 0
+		if inRange {
+			for n := uint32(0); n < 1<<22; n++ {
+				h.Nonce = n
+				hash := h.BlockHash()
+				if blockchain.HashToBig(&hash).Cmp(target) <= 0 {
+					break
+				}
+			}
+		}
+		fails := ctxFails(p, par.times, par.bits, h.Bits, h.Timestamp.Unix(), true)
+		_, err := chain.ProcessBlockHeader(&h, blockchain.BFNone, true)
+		v := ruleClass(err)
+		if re, ok := err.(blockchain.RuleError); ok && re.ErrorCode == blockchain.ErrUnexpectedDifficulty && !inRange {
+			v = "badTarget"
+		}
+		if v == "ok" {
+			ks = append(ks, known{h.BlockHash(), append(append([]int64{}, par.times...), h.Timestamp.Unix()),
+				append(append([]uint32{}, par.bits...), h.Bits)})
+		}
+		out = append(out, coarsen(v, fails))
+	}
+	return strings.Join(out, ",")
 }
 
 // execFork: a side branch hanging off the main chain `depth` blocks below its tip, inside ONE BlockChain
@@ -1277,6 +1344,70 @@ func generateHard(g *core.Gen) {
 			toks[j] = fmt.Sprintf("%s:%d", id, ms)
 		}
 		emit(g, "adj", n >= 5, "C09 adj "+strings.Join(toks, " "))
+	}
+
+	// header TREES through ProcessBlockHeader: several branches with their own time stamps and bits
+	for i := 0; i < g.N(20, 400); i++ {
+		q := synthParams(r)
+		q.PoWNoRetargeting = false
+		if r.Bool() {
+			q.EnforceBIP94 = true
+		}
+		p := phdrParams(q)
+		c := cctx{p}
+		bpr := int(c.BlocksPerRetarget())
+		per := int64(p.TargetTimePerBlock / time.Second)
+		red := int64(p.MinDiffReductionTime / time.Second)
+		gen := p.GenesisBlock.Header
+		type br struct {
+			times []int64
+			bits  []uint32
+		}
+		known := []br{{[]int64{gen.Timestamp.Unix()}, []uint32{gen.Bits}}}
+		tips := []int{0} // indices of branch tips
+		n := min(3*bpr+4, 36)
+		var toks []string
+		for j := 0; j < n; j++ {
+			pi := tips[r.Intn(len(tips))]
+			fork := r.Chance(1, 6)
+			if fork {
+				pi = r.Intn(len(known)) // fork anywhere
+			}
+			par := known[pi]
+			last := par.times[len(par.times)-1]
+			tip := hdrChain(par.times, par.bits)
+			mtp := blockchain.CalcPastMedianTime(tip).Unix()
+			t := last + r.Pick(per, per/2, 2*per, 1, red+1, red, per/4, 4*per, 3*per+int64(len(known)))
+			if p.EnforceBIP94 && len(par.times)%bpr == 0 && r.Chance(1, 3) {
+				t = last + r.Pick(-599, -600, -601)
+			}
+			if r.Chance(1, 14) {
+				t = mtp + r.Pick(-1, 0, 1)
+			}
+			want, err := safeNext(tip, time.Unix(t, 0), c)
+			b := want
+			if err != nil || r.Chance(1, 12) {
+				b = []uint32{want + 1, p.PowLimitBits, par.bits[len(par.bits)-1], 0, 0x2100ffff}[r.Intn(5)]
+			}
+			toks = append(toks, fmt.Sprintf("%d:%d:%x", pi, t, b))
+			bt := blockchain.CompactToBig(b)
+			if b == want && err == nil && t > mtp && bt.Sign() > 0 && bt.Cmp(p.PowLimit) <= 0 &&
+				!(p.EnforceBIP94 && len(par.times)%bpr == 0 && t < last-600) {
+				known = append(known, br{append(append([]int64{}, par.times...), t), append(append([]uint32{}, par.bits...), b)})
+				ni := len(known) - 1
+				replaced := false
+				for k, ti := range tips {
+					if ti == pi {
+						tips[k] = ni
+						replaced = true
+					}
+				}
+				if !replaced {
+					tips = append(tips, ni)
+				}
+			}
+		}
+		emit(g, "ptree", len(tips) > 1, fmt.Sprintf("C09 ptree %s %d:%x %s", paramsLine(p), gen.Timestamp.Unix(), gen.Bits, strings.Join(toks, " ")))
 	}
 
 	// blockchain.New derives blocksPerRetarget / min / max timespan
